@@ -112,6 +112,10 @@ def run_root(task):
                 nearest = [zand([has[r][k]] + [z3.Not(x) for x in has[r][:k]]) for r in readings]
                 viol(I, z3.Not(zor(nearest)), 'root-not-nearest', 'a nearer ancestor than %r holds .git/.hg' % got)
         out['cover']['root'] = out['cover'].get('root', 0) + 1
+        if len(out['samples']) < 3:
+            m = I.ensure_model()
+            out['samples'].append(dict(fsroot='root', start=start.decode(), role='sample', summary='sample path',
+                                       marks={k.decode(): int(mval(m, v)) for k, v in holder['marks'].items()}))
     out.update(Agg(PROP, 'x').stats_from(stats))
     return out
 
@@ -324,4 +328,153 @@ def confirm_walk(binary, prop, v, idx):
         fs['make_links.sh'] = ''.join('ln -s %s %s\n' % (t, l) for l, t in links.items()).encode()
         v['replay'] = save_replay(prop, 'fswalk-%s-%d' % (v['role'], idx), fs,
                                   "list '**/*.py'  (after sh make_links.sh)", 'expected keys %s; %s' % (want, v['summary']), v)
+    return v
+
+
+def run_globs(task):
+    """Args::globs / Args::ignored_globs (real MIR): the positional globs - those given at the top level and
+    those given to `list` - all end up in the allow set, the --ignore patterns (and only they) in the ignore
+    set; a pattern globset refuses makes the call fail.  globset itself is a recording stub."""
+    # Shapes the command line can express: globs at the top level and no subcommand (nlist None), or the
+    # `list` subcommand with its own globs and none at the top level (a top-level glob list swallows the word `list`).
+    ntop, nlist, nign, bad = task          # bad: None | ('top'|'list'|'ign', index)
+    prog = driver.load_program()
+    stats = PathStats()
+    f_globs = prog.find_method('Args', 'globs')
+    f_ign = prog.find_method('Args', 'ignored_globs')
+    if f_globs is None or f_ign is None:
+        raise EngineError('Args::globs / ignored_globs not in the MIR dump')
+    out = dict(violations=[], samples=[], obligations=0, cover={}, panic_paths=0)
+    roles = set()
+    holder = {}
+    top = [b'top%d/*.py' % i for i in range(ntop)]
+    lst = [b'list%d/**' % i for i in range(nlist or 0)]
+    ign = [b'ign%d' % i for i in range(nign)]
+    badpat = None
+    if bad:
+        badpat = {'top': top, 'list': lst, 'ign': ign}[bad[0]][bad[1]]
+
+    def run_path(I):
+        st = I.stubs
+
+        def glob_new(I2, a, ci, dt):
+            p = bytes(as_sstr(I2, a[0]).b)
+            if p == badpat:
+                return Err(Opaque('globset::Error', 'invalid pattern'))
+            return Ok(Struct('Glob', (p,)))
+        st['Glob::new'] = glob_new
+        st['GlobSetBuilder::new'] = lambda I2, a, ci, dt: Struct('GlobSetBuilder', (VecVal(()),))
+
+        def add(I2, a, ci, dt):
+            r = a[0]
+            b = I2.load(r)
+            g = a[1]
+            I2.store(r, Struct('GlobSetBuilder', (VecVal(tuple(b.f[0].items) + (g.f[0],)),)))
+            return r
+        st['GlobSetBuilder::add'] = add
+
+        def build(I2, a, ci, dt):
+            b = a[0]
+            while isinstance(b, Ref):
+                b = I2.load(b)
+            return Ok(Struct('GlobSet', (tuple(b.f[0].items),)))
+        st['GlobSetBuilder::build'] = build
+        cmd = NONE
+        if nlist is not None:
+            vi = prog.variant_index('SubCommand', 'List')
+            cmd = Some(Enum('SubCommand', vi, 'List', (VecVal([new_string(I, x) for x in lst]),)))
+        args = mk_struct(prog, 'Args', extensions=VecVal(()), disabled_validators=VecVal(()), enabled_validators=VecVal(()),
+                         ignore=VecVal([new_string(I, x) for x in ign]), globs=VecVal([new_string(I, x) for x in top]), command=cmd)
+        me = Ref(Cell(args), ())
+        g = I.call_fn(f_globs, [me])
+        i = I.call_fn(f_ign, [me])
+        return Tuple(g, i)
+
+    def viol(I, role, summary):
+        out['obligations'] += 1
+        if role in roles:
+            return
+        roles.add(role)
+        out['violations'].append(dict(role=role, summary=summary, fsroot='globs', top=[x.decode() for x in top],
+                                      list=[x.decode() for x in lst], ignore=[x.decode() for x in ign], bad=bad, is_list=nlist is not None))
+
+    for I, pk, val in explore(prog, models.M, run_path, stats=stats, max_paths=2000):
+        if pk == 'panic':
+            out['panic_paths'] += 1
+            viol(I, 'globs-panic', 'panic: %s' % val.msg[:120])
+            continue
+        g, i = val.f
+        out['obligations'] += 2
+        want_g_err = bool(bad and bad[0] in ('top', 'list'))
+        want_i_err = bool(bad and bad[0] == 'ign')
+        if (g.v != 0) != want_g_err:
+            viol(I, 'glob-error-handling-wrong', 'positional globs %s (refused pattern: %s): %s' % ([x.decode() for x in top + lst], badpat, 'Err' if g.v else 'Ok'))
+        elif g.v == 0 and sorted(g.f[0].f[0]) != sorted(top + lst):
+            viol(I, 'allow-set-is-not-the-positional-globs', 'allow set %s, positional globs %s' % (sorted(g.f[0].f[0]), sorted(top + lst)))
+        if (i.v != 0) != want_i_err:
+            viol(I, 'glob-error-handling-wrong', '--ignore %s (refused pattern: %s): %s' % ([x.decode() for x in ign], badpat, 'Err' if i.v else 'Ok'))
+        elif i.v == 0 and sorted(i.f[0].f[0]) != sorted(ign):
+            viol(I, 'ignore-set-is-not-the-ignore-globs', 'ignore set %s, --ignore %s' % (sorted(i.f[0].f[0]), sorted(ign)))
+        out['cover']['globs'] = out['cover'].get('globs', 0) + 1
+        if not out['samples']:
+            out['samples'].append(dict(role='sample', summary='sample path', fsroot='globs', top=[x.decode() for x in top],
+                                       list=[x.decode() for x in lst], ignore=[x.decode() for x in ign], bad=bad, is_list=nlist is not None))
+    out.update(Agg(PROP, 'x').stats_from(stats))
+    return out
+
+
+def confirm_globs(binary, prop, v, idx):
+    """Replay: `blockwatch --ignore .. [globs]` (validation: every file holds an unsorted keep-sorted block, the
+    diagnostics name the files examined) or `blockwatch --ignore .. list [globs]`, over a tree with one file
+    per pattern, one ignored file and one file no pattern matches."""
+    body = '# <block name="b" keep-sorted>\nb\na\n# </block>\n'
+    files = {}
+    want = []
+    for g in v['top']:
+        fn = g.replace('*', 'x')
+        files[fn] = body
+        want.append(fn)
+    for g in v['list']:
+        fn = g.replace('**', 'd/y.py')
+        files[fn] = body
+        want.append(fn)
+    if not v['top'] and not v['list']:
+        want = None          # no glob: nothing is scanned when stdin is not a terminal
+    for g in v['ignore']:
+        files[g + '/i.py'] = body
+    files['other/z.py'] = body
+    real = {k: list(v[k]) for k in ('top', 'list', 'ignore')}
+    if v.get('bad'):
+        # the pattern the stub refused is written as one globset really refuses (an unclosed character class)
+        real[{'top': 'top', 'list': 'list', 'ign': 'ignore'}[v['bad'][0]]][v['bad'][1]] = 'bad[/x'
+    argv = []
+    for g in real['ignore']:
+        argv += ['--ignore', g + '/**' if not g.startswith('bad[') else g]
+    # the ignored directory also matches a positional glob: --ignore wins
+    extra = ['ign*/**'] if v['ignore'] and (v['top'] or v['list']) else []
+    argv += (['list'] + real['list'] + extra) if v.get('is_list') else (real['top'] + extra)
+    d = scratch_dir('globs')
+    try:
+        git_init(d)
+        for fn, content in files.items():
+            os.makedirs(os.path.dirname(os.path.join(d, fn)) or d, exist_ok=True)
+            open(os.path.join(d, fn), 'w').write(content)
+        r = run_blockwatch(binary, d, argv, stdin=b'')
+    finally:
+        shutil.rmtree(d, ignore_errors=True)
+    try:
+        keys = sorted(json.loads(r['stdout'] if v.get('is_list') else r['stderr']).keys())
+    except ValueError:
+        keys = None
+    v['observed'] = dict(code=r['code'], keys=keys, stderr=r['stderr'][-200:])
+    v['expected'] = sorted(want) if want else want
+    if v.get('bad'):
+        v['confirmed'] = r['code'] == 0 or keys is not None      # a refused pattern must fail the run
+    elif not want:
+        v['confirmed'] = bool(keys)
+    else:
+        v['confirmed'] = keys != sorted(want)
+    if v['confirmed']:
+        v['replay'] = save_replay(prop, 'globs-%s-%d' % (v['role'], idx), {k: c.encode() for k, c in files.items()},
+                                  ' '.join(argv), 'expected files %s; %s' % (v['expected'], v['summary']), v)
     return v
